@@ -2,8 +2,10 @@ package props
 
 import (
 	"bytes"
+	"encoding/binary"
 	"fmt"
 	"runtime"
+	"strings"
 
 	"github.com/akalin/gopar/gf2p16"
 	"github.com/akalin/gopar/par2"
@@ -11,6 +13,7 @@ import (
 
 	"verifh/core"
 	"verifh/envfs"
+	"verifh/ref/rpar2"
 	"verifh/scen"
 )
 
@@ -132,23 +135,76 @@ func c12Body(r *core.Rec, seed int64, d, p, length, g int, odd bool) bool {
 // c12Par2Body creates and repairs through par2 with g goroutines and
 // compares all written bytes with g=1.
 func c12Par2Body(r *core.Rec, seed int64, sizes []int, slice, blocks, g int) bool {
+	// damage 0: first file deleted and one slice of the last file hit (beyond the capacity of most of the sets used here:
+	// Repair must fail alike); damage 1: one slice of the last file hit; damage 2: the shortest file deleted.
+	// bad: -1, or the exponent of a recovery block whose data is wrong inside a well-formed packet - DoubleCheck has to
+	// notice it (or not) identically for every goroutine count, whether or not the reconstruction consumed that block
+	for dmg := 0; dmg < 3; dmg++ {
+		for bad := -1; bad < blocks; bad++ {
+			if dmg == 0 && bad >= 0 {
+				continue
+			}
+			if !c12Par2BodyOne(r, seed, sizes, slice, blocks, g, dmg, bad) {
+				return false
+			}
+		}
+	}
+	return true
+}
+
+// c12SpoilBlock flips one data byte of every recovery packet with exponent e in a PAR2 file and re-seals the packet.
+func c12SpoilBlock(b []byte, e int) []byte {
+	pk, err := rpar2.Parse(b)
+	if err != nil {
+		return b
+	}
+	nb := append([]byte{}, b...)
+	for _, p := range pk {
+		if p.Type == rpar2.TypeRecv && len(p.Body) > 4 && int(binary.LittleEndian.Uint32(p.Body)) == e {
+			end := p.Offset + 64 + len(p.Body)
+			nb[end-1] ^= 0x10
+			copy(nb[p.Offset:end], rpar2.Rehash(append([]byte{}, nb[p.Offset:end]...)))
+		}
+	}
+	return nb
+}
+
+func c12Par2BodyOne(r *core.Rec, seed int64, sizes []int, slice, blocks, g, dmg, bad int) bool {
 	mk := func(gg int) (map[string][]byte, map[string][]byte, error) {
 		fs := envfs.New()
 		var paths []string
+		shortest := 0
 		for i, n := range sizes {
 			p := fmt.Sprintf("/d/f%d", i)
 			paths = append(paths, p)
 			fs.Put(p, scen.Content("uniq", seed, i, n, slice))
+			if n < sizes[shortest] {
+				shortest = i
+			}
 		}
 		if err := par2.VerifCreate(fs, "/d/s.par2", paths, par2.CreateOptions{SliceByteCount: slice, NumParityShards: blocks, NumGoroutines: gg}); err != nil {
 			return nil, nil, err
 		}
 		created := fs.Snapshot()
-		fs.Del(paths[0])
-		b, _ := fs.Get(paths[len(paths)-1])
-		nb := append([]byte{}, b...)
-		nb[0] ^= 0xff
-		fs.Put(paths[len(paths)-1], nb)
+		if dmg == 0 {
+			fs.Del(paths[0])
+		}
+		if dmg == 0 || dmg == 1 {
+			b, _ := fs.Get(paths[len(paths)-1])
+			nb := append([]byte{}, b...)
+			nb[0] ^= 0xff
+			fs.Put(paths[len(paths)-1], nb)
+		}
+		if dmg == 2 {
+			fs.Del(paths[shortest])
+		}
+		if bad >= 0 {
+			for p, b := range created {
+				if strings.HasSuffix(p, ".par2") {
+					fs.Put(p, c12SpoilBlock(b, bad))
+				}
+			}
+		}
 		_, err := par2.VerifRepair(fs, "/d/s.par2", par2.RepairOptions{NumGoroutines: gg, DoubleCheck: true})
 		return created, fs.Snapshot(), err
 	}
@@ -159,8 +215,14 @@ func c12Par2Body(r *core.Rec, seed int64, sizes []int, slice, blocks, g int) boo
 		r.Violatef("par2-panic:"+pi.Frame, "g=%d: %s", g, pi.Value)
 		return false
 	}
+	r.Count(fmt.Sprintf("par2_repair_ok_%v", e1 == nil), 1)
+	if bad >= 0 && e1 == nil && dmg != 0 {
+		// a spoiled block and a double-checked Repair that succeeds: at g=1 this would be a C13 matter, here it only must
+		// not differ by g; count it so that the evidence shows whether the detecting branch was reached
+		r.Count("par2_doublecheck_accepted_spoiled_block", 1)
+	}
 	if (e1 == nil) != (eg == nil) {
-		r.Violatef("par2-result-depends-on-goroutines", "sizes=%v slice=%d blocks=%d: g=1 err=%v, g=%d err=%v", sizes, slice, blocks, e1, g, eg)
+		r.Violatef("par2-result-depends-on-goroutines", "sizes=%v slice=%d blocks=%d damage=%d spoiled block=%d: g=1 err=%v, g=%d err=%v", sizes, slice, blocks, dmg, bad, e1, g, eg)
 		return false
 	}
 	if d := envfs.Diff(c1, cg); len(d) > 0 {
@@ -168,7 +230,7 @@ func c12Par2Body(r *core.Rec, seed int64, sizes []int, slice, blocks, g int) boo
 		return false
 	}
 	if d := envfs.Diff(r1, rg); len(d) > 0 {
-		r.Violatef("repair-result-depends-on-goroutines", "sizes=%v slice=%d blocks=%d g=%d: %v differ from g=1", sizes, slice, blocks, g, d)
+		r.Violatef("repair-result-depends-on-goroutines", "sizes=%v slice=%d blocks=%d damage=%d spoiled block=%d g=%d: %v differ from g=1", sizes, slice, blocks, dmg, bad, g, d)
 		return false
 	}
 	return true
@@ -315,7 +377,7 @@ func init() {
 		Level:   "model_checking",
 		Rule: "(i) partition arithmetic, full product through the real GenerateParity/ReconstructData: every even shard length 2..600 (+1024..65550) x goroutine count 1..40 (and > number of 16-byte units) x codes (2,2),(3,2), and every even length 2..200 x g 1..16 x codes (6,5),(9,8) (several missing rows per goroutine), compared with g=1 (the data list is a window into a longer list whose entries behind it must stay untouched); every row count 1..40 x 64 KiB shards and 60..130 x 4 KiB shards x g 1..3; the (3,2) code also with every input shard displaced to an odd address inside a larger buffer; " +
 			"(ii) controlled-scheduler exploration of the real worker goroutines (sources instrumented from the current tree and injected with go build -overlay): for encode and reconstruct configurations (workers x kernel calls), EVERY interleaving at kernel-call/synchronisation granularity (unbounded), and every interleaving with <=2 (thorough 3) preemptions at statement granularity; per execution: output == single-goroutine bytes, recorded kernel access sets of different workers conflict-free, no deadlock; " +
-			"(iii) Create / Repair through par2 for g in 1..12, and for the default count (option 0 / -1) under GOMAXPROCS {1,2,3,4,16}, byte-identical to g=1; (iv) the same bodies free-running under the race detector (separate -race build, GOMAXPROCS 1,2,4,16). non-trivial = executions with >=2 runnable threads at some choice point / g>1 cases",
+			"(iii) Create / Repair through par2 for g in 1..12, and for the default count (option 0 / -1) under GOMAXPROCS {1,2,3,4,16}, byte-identical to g=1, over three damage kinds (beyond capacity, one slice hit, shortest file deleted) x {no, each} recovery block spoiled inside a well-formed packet with DoubleCheck on; (iv) the same bodies free-running under the race detector (separate -race build, GOMAXPROCS 1,2,4,16). non-trivial = executions with >=2 runnable threads at some choice point / g>1 cases",
 		Assumptions: []string{"the controlled scheduler is sequentially consistent; weak-memory effects are covered only by the race-detector pass (no race => SC)", "scheduling points: spawn, exit, WaitGroup/Mutex operations, kernel calls, and (statement granularity) every statement of the instrumented files"},
 		NewCase:     func() interface{} { return &c12Case{} },
 		Gen:         c12Gen,
